@@ -16,11 +16,22 @@
             raises DependencyError("... AES algorithm") (AES-256 / V5 documents: the key check already
             needs AES) and - since repo commit f4a7d41 - whenever the opened reader is encrypted; never
             undone.
+     reg    serialization._TYPE_REGISTRY: name -> dataclass table used by ExtractionInterface.from_json,
+            filled lazily with ALL dataclasses of data_types by _get_type_registry() while it is empty.
+            State: [full, seen]; "empty" and "full" are observationally equivalent (lazy, idempotent);
+            a table that holds only some types ("partial") makes from_json hand back the raw dict for
+            every other type for the rest of the process.
      cfg / tmp / fds / fns : archive_extractor._config, temp-root listing, open file descriptors,
             identity of every third-party function: observed only (Residue event), must be unchanged.
 
    Document classes (the abstract universe; concretised by mbv/c15_docs.py and the repo's fixtures):
      "plain"          anything without modelled interaction (all fixtures, failing inputs, archives ...)
+     "fail"           failing input: garbage / fails inside the PDF patch section / truncated docx / 7z whose
+                      second folder is damaged (extractall fails after the first folder reached the temp
+                      directory) / truncated tar.gz; same obligations as "plain" (equal to isolation, no residue)
+     "deser"          not a document: a STORED extraction (to_json of an earlier run, type tag f) is
+                      restored with ExtractionInterface.from_json; observation = restored type and digest
+                      equal to the restoration in a fresh process
      "aesT"           PDF that triggers the AES patch (AES-256 / V5, empty user password)
      "aesU"           PDF that needs AES only after the reader is open (AES-128 / V4, empty user
                       password): its streams can be decrypted iff the patch is installed at that time
@@ -41,6 +52,11 @@
                                  document works iff an earlier extraction left the patch behind (the pinned
                                  tree; repaired in /repo by f4a7d41: kept for the sensitivity run)
 
+     "RegistryFilledBySerialize" serialising a result enters its type into reg; the lazy fill then never
+                                 happens, and a later from_json of another type returns the raw dict
+                                 (sensitivity only).  NOTE every Extract step of the harness serialises its
+                                 result (the observation IS the to_json digest).
+
    Properties:  HistoryIndependent (every observation equals the observation of the same document in
    a fresh process),  ResidueFree (aes = FALSE: third-party functions are back).
 
@@ -52,18 +68,30 @@ EXTENDS Naturals, Sequences, FiniteSets, TLC, Json, IOUtils, TLCExt
 CONSTANTS Deviations, Fonts, GidSets, MaxLen
 
 DeviationNames == {"FontCacheKeyedByFontOnly", "FontCacheSupersetReuse", "PermanentAesPatch",
-                   "AesPatchOnlyOnOpenFailure"}
+                   "AesPatchOnlyOnOpenFailure", "RegistryFilledBySerialize"}
 ASSUME Deviations \subseteq DeviationNames
 
 \* every document is a record of one shape (TLC cannot mix strings and tuples in a set)
 Doc(k, f, g) == [k |-> k, f |-> f, g |-> g]
 FontDocs == { Doc("font", f, g) : f \in Fonts, g \in GidSets }
-Docs     == { Doc(k, "", {}) : k \in {"plain", "aesT", "aesU"} } \cup FontDocs
+Docs     == { Doc(k, "", {}) : k \in {"plain", "fail", "aesT", "aesU", "deser"} } \cup FontDocs
 IsFont(d) == d.k = "font"
 
-VARIABLES cache, aes, hist, obs,
+VARIABLES cache, aes, reg, hist, obs,
           tid, l                      \* trace validation only (0 otherwise)
-gvars == <<cache, aes, hist, obs, tid, l>>
+gvars == <<cache, aes, reg, hist, obs, tid, l>>
+
+Reg0 == [full |-> FALSE, seen |-> {}]
+\* type tag a document's result is serialised under (stored extractions carry their own tag in f;
+\* ASSUMPTION for the deviation only: stored tags differ from the tags of the documents extracted before)
+TagOf(d) == IF d.k \in {"font", "aesT", "aesU"} THEN "PdfContent" ELSE IF d.k = "deser" THEN d.f ELSE "Other"
+RegAfterSerialize(r, d) ==
+    IF "RegistryFilledBySerialize" \in Deviations /\ ~r.full /\ d.k # "fail"
+    THEN [r EXCEPT !.seen = @ \cup {TagOf(d)}] ELSE r
+\* from_json: lazy fill iff the table is empty; the type is found iff the table is full or holds it
+RegAfterDeser(r)  == IF ~r.full /\ r.seen = {} THEN [r EXCEPT !.full = TRUE] ELSE r
+DeserFinds(r, d)  == LET r2 == RegAfterDeser(r) IN r2.full \/ TagOf(d) \in r2.seen
+RegState(r)       == IF r.full THEN "full" ELSE IF r.seen = {} THEN "empty" ELSE "partial"
 
 -----------------------------------------------------------------------------
 (* one extraction as a function of the global state: [out, gl, cache, aes] *)
@@ -88,20 +116,29 @@ Extract(d, c, a) ==
          aes |-> IF "PermanentAesPatch" \in Deviations THEN TRUE ELSE a]      \* ... and (reference) removed again
     ELSE IF d.k = "aesU" THEN
         [out |-> IF a THEN "ok" ELSE "fail", gl |-> {}, cl |-> {}, cache |-> c, aes |-> a]
-    ELSE [out |-> "same", gl |-> {}, cl |-> {}, cache |-> c, aes |-> a]
+    ELSE [out |-> "same", gl |-> {}, cl |-> {}, cache |-> c, aes |-> a]     \* plain, fail, deser(found)
 
 Observation(r) == [out |-> r.out, gl |-> r.gl, cl |-> r.cl]
-Isolated(d)    == Observation(Extract(d, {}, FALSE))          \* fresh process
+Isolated(d)    == IF d.k = "deser" /\ ~DeserFinds([full |-> FALSE, seen |-> {}], d)
+                  THEN [out |-> "raw", gl |-> {}, cl |-> {}]
+                  ELSE Observation(Extract(d, {}, FALSE))      \* fresh process
 
-Init == cache = {} /\ aes = FALSE /\ hist = <<>> /\ obs = <<>> /\ tid = 0 /\ l = 0
+\* the registry part of a step: restoring a stored extraction, or serialising the result of an extraction
+RegStep(r, d)  == IF d.k # "deser" THEN RegAfterSerialize(r, d)
+                  ELSE IF DeserFinds(r, d) THEN RegAfterSerialize(RegAfterDeser(r), d)   \* (digest of the restored object)
+                  ELSE RegAfterDeser(r)
+ObsOf(d, r, x) == IF d.k = "deser" /\ ~DeserFinds(r, d) THEN [out |-> "raw", gl |-> {}, cl |-> {}]
+                  ELSE Observation(x)
+
+Init == reg = Reg0 /\ cache = {} /\ aes = FALSE /\ hist = <<>> /\ obs = <<>> /\ tid = 0 /\ l = 0
 Do(d) == LET r == Extract(d, cache, aes) IN
-         /\ cache' = r.cache /\ aes' = r.aes
-         /\ hist' = Append(hist, d) /\ obs' = Append(obs, Observation(r))
+         /\ cache' = r.cache /\ aes' = r.aes /\ reg' = RegStep(reg, d)
+         /\ hist' = Append(hist, d) /\ obs' = Append(obs, ObsOf(d, reg, r))
 Next == Len(hist) < MaxLen /\ (\E d \in Docs : Do(d)) /\ UNCHANGED <<tid, l>>
 Spec == Init /\ [][Next]_gvars
 
 HistoryIndependent == \A i \in 1..Len(hist) : obs[i] = Isolated(hist[i])
-ResidueFree        == aes = FALSE
+ResidueFree        == aes = FALSE /\ RegState(reg) # "partial"
 \* at most one entry per key: the font-only cache never holds two entries of one font
 CacheShape         == KeyedByFont =>
                           \A e1, e2 \in cache : e1[1] = e2[1] => e1 = e2
@@ -109,9 +146,10 @@ CacheShape         == KeyedByFont =>
 -----------------------------------------------------------------------------
 (* code -> spec: recorded histories (mbv/props/c15.py history workers).  Events:
      {"a":"Extract","d":<class>,"f":font|"","g":[gids],"out":"ok"|"fail"|"same"|<other>,"gl":[resolved gids],"cl":[clobbered gids],"same":bool}
-          d in "plain" | "aesT" | "aesU" | "font";   `same`: to_json digest equals the isolated baseline
+          d in "plain" | "fail" | "aesT" | "aesU" | "font" | "deser" (f = type tag of the stored extraction;
+          out = "same" iff restored type and digest equal the fresh-process restoration, else "raw"/"differs");   `same`: to_json digest equals the isolated baseline
           for "plain" the harness reports out = "same" iff the digest (or the exception) equals the baseline
-     {"a":"Residue","aesfn":bool,"fns":bool,"cfg":bool,"tmp":bool,"fds":bool}   each: unchanged w.r.t. process start
+     {"a":"Residue","aesfn":bool,"fns":bool,"cfg":bool,"tmp":bool,"fds":bool,"reg":"empty"|"full"|"partial"}   each: unchanged w.r.t. process start
           aesfn: pypdf's AES provider functions (the set patch_pypdf_fallback_aes replaces);  fns: every OTHER
           third-party function / class / method                                                              *)
 Traces == JsonDeserialize(IOEnv.TRACE_FILE)
@@ -121,28 +159,30 @@ Ev == Traces[tid].ev[l]
 IsEvent(a) == l <= Len(Traces[tid].ev) /\ Ev.a = a /\ l' = l + 1 /\ UNCHANGED tid
 
 Range(s) == { s[i] : i \in DOMAIN s }
-DocOf(e) == IF e.d = "font" THEN Doc("font", e.f, Range(e.g)) ELSE Doc(e.d, "", {})
+DocOf(e) == IF e.d = "font" THEN Doc("font", e.f, Range(e.g))
+            ELSE IF e.d = "deser" THEN Doc("deser", e.f, {}) ELSE Doc(e.d, "", {})
 
 TraceExtract ==
     /\ IsEvent("Extract")
     /\ LET d == DocOf(Ev)  r == Extract(d, cache, aes) IN
-       /\ Ev.d \in {"plain", "aesT", "aesU", "font"}
-       /\ \/ Ev.out = r.out
+       /\ Ev.d \in {"plain", "fail", "aesT", "aesU", "font", "deser"}
+       /\ \/ Ev.out = ObsOf(d, reg, r).out
           \/ /\ d.k \in {"aesT", "aesU"}                  \* DON'T-CARE: whether an AES document can be read at
              /\ "AesPatchOnlyOnOpenFailure" \notin Deviations \* all (C08); only `same` (equal to isolation) counts
        /\ Range(Ev.gl) = r.gl
        /\ Range(Ev.cl) = r.cl
-       /\ (Observation(r) = Isolated(d)) => Ev.same       \* DON'T-CARE once the modelled part deviates
-       /\ cache' = r.cache /\ aes' = r.aes
-       /\ hist' = Append(hist, d) /\ obs' = Append(obs, Observation(r))
+       /\ (ObsOf(d, reg, r) = Isolated(d)) => Ev.same     \* DON'T-CARE once the modelled part deviates
+       /\ cache' = r.cache /\ aes' = r.aes /\ reg' = RegStep(reg, d)
+       /\ hist' = Append(hist, d) /\ obs' = Append(obs, ObsOf(d, reg, r))
 
 TraceResidue ==
     /\ IsEvent("Residue")
     /\ Ev.cfg /\ Ev.tmp /\ Ev.fds /\ Ev.fns
     /\ Ev.aesfn = ~aes                                     \* AES provider functions back iff not patched
-    /\ UNCHANGED <<cache, aes, hist, obs>>
+    /\ (Ev.reg = "partial") <=> (RegState(reg) = "partial")   \* "empty" / "full": equivalent (lazy fill)
+    /\ UNCHANGED <<cache, aes, reg, hist, obs>>
 
-TraceInit == tid \in 1..Len(Traces) /\ l = 1 /\ cache = {} /\ aes = FALSE /\ hist = <<>> /\ obs = <<>>
+TraceInit == tid \in 1..Len(Traces) /\ l = 1 /\ reg = Reg0 /\ cache = {} /\ aes = FALSE /\ hist = <<>> /\ obs = <<>>
 \* the properties are conjoined primed: with Deviations = {} they hold by the theorem; with the as-built
 \* deviations they are dropped (AsBuilt = TRUE) and the trace is checked against the deviating model itself
 AsBuilt == Deviations # {}
